@@ -28,6 +28,8 @@ static FILE *vf_out;
 static int vf_cur_more_prefix;      /* bytes of yytext carried over by yymore() */
 static int vf_act_ops, vf_act_io, vf_act_did_input, vf_act_did[16];   /* operations already performed in the current action */
 static int vf_pushed_back, vf_need_max;
+static int vf_pre_pending;           /* a pre-action ran and no action body has run since */
+static int vf_prev_act; static const char *vf_prev_text; static long vf_prev_leng, vf_prev_reads, vf_prev_calls, vf_lex_calls, vf_n_dup_preaction;
 static int vf_rej_newlines;          /* newlines in text given back by yyreject() so far in this execution */
 static int vf_frozen_line = 1;       /* scanners without %option yylineno must never change the line number */
 #ifdef VF_LINENO_FROZEN
@@ -202,6 +204,17 @@ static void vf_act(int act, const char *text, long leng, int start, int lineno, 
 	int seg;
 	vf_step();
 	(void)atbol;
+	/* A rule whose action is '|' falls through into the next rule's arm.  For some such rules (those with
+	 * trailing context) flex emits the rule set-up, and with it the pre-action, in both arms, so the hook runs
+	 * twice for one match.  The token stream is not affected; the repeat is recognised (same rule and length, and the
+	 * action body - every harness action starts with vf_body() - has not run in between) and counted, not compared. */
+	if (vf_pre_pending && vf_prev_act == act && vf_prev_leng == leng && vf_prev_calls == vf_lex_calls && vf_act_ops == 0
+	    && act <= VF_NRULES && (vf_rules[act].flags & 2)) {
+		vf_n_dup_preaction++;
+		return;
+	}
+	vf_pre_pending = 1;
+	vf_prev_act = act; vf_prev_text = text; vf_prev_leng = leng; vf_prev_reads = vf_n_reads; vf_prev_calls = vf_lex_calls;
 	vf_act_ops = vf_act_io = vf_act_did_input = 0; memset(vf_act_did, 0, sizeof vf_act_did);
 	if (act > (int)YY_END_OF_BUFFER) {            /* an <<EOF>> action */
 		vf_n_eof++;
@@ -453,6 +466,7 @@ static void vf_did_setbol(int v, int now)
 	if (!!now != !!v) vf_op_mismatch("yyatbol() after yysetbol", v, now);
 }
 static void vf_did_return(void) { }
+static void vf_body(void) { vf_pre_pending = 0; }
 static int vf_arg_line(void)
 {
 	static const int vals[] = { 1, 7, 1000 };
@@ -531,7 +545,7 @@ static void vf_report(int st)
 static void vf_run_one(void)
 {
 	int st, r;
-	vf_in_pos = 0; vf_steps = 0; vf_tok_in_exec = 0; vf_nrules_in_exec = 0; vf_need_max = 0; vf_frozen_line = 1; vf_rej_newlines = 0;
+	vf_in_pos = 0; vf_steps = 0; vf_tok_in_exec = 0; vf_nrules_in_exec = 0; vf_need_max = 0; vf_frozen_line = 1; vf_rej_newlines = 0; vf_prev_act = -1; vf_prev_text = 0; vf_pre_pending = 0;
 	vf_cur_sc = vf_g->sc; vf_cur_more_prefix = 0; vf_expected_fatal = 0; vf_expect_underflow = 0;
 	vf_ref_init(&vf_R, vf_in, vf_in_len, vf_g->sc);
 #ifdef VF_EXPECT_FATAL
@@ -559,7 +573,7 @@ static void vf_run_one(void)
 		if (vf_bufsize > 0)
 			yy_switch_to_buffer(yy_create_buffer(stdin, vf_bufsize VF_S1) VF_S1);  /* a NULL file would mark the buffer as not refillable */
 #endif
-		do { r = VF_LEX(); } while (r != 0);
+		do { vf_lex_calls++; r = VF_LEX(); } while (r != 0);
 		vf_in_yylex = 0;
 		if (vf_R.head < vf_R.tail) {
 			vf_ref_match(&vf_R);
@@ -707,10 +721,10 @@ int main(int argc, char **argv)
 	fprintf(vf_out, "{\"summary\":1,\"groups\":%d,\"inputs\":%ld,\"executions\":%ld,\"tokens\":%ld,\"mismatches\":%ld,"
 		"\"fatals\":%ld,\"horizons\":%ld,\"nontrivial\":%ld,\"reads\":%ld,\"eof_actions\":%ld,"
 		"\"ref_states\":%ld,\"ref_edges\":%ld,\"ref_edges_walked\":%ld,\"choice_points\":%ld,\"overflow\":%d,"
-		"\"bound\":%d,\"overread_checks\":%ld,\"expected_fatals\":%ld,\"op_effects\":%ld,\"ops\":[",
+		"\"bound\":%d,\"dup_preaction\":%ld,\"overread_checks\":%ld,\"expected_fatals\":%ld,\"op_effects\":%ld,\"ops\":[",
 		ng, vf_n_inputs, vf_executions, vf_n_tokens, vf_n_mismatch, vf_n_fatal, vf_n_horizon, vf_n_nontrivial,
 		vf_n_reads, vf_n_eof, vf_states_total, vf_edges_live, vf_edges_seen_n, vf_choice_points, vf_overflow,
-		vf_bound_done, vf_n_overread_checks, vf_n_expected_fatal, vf_n_op_effect);
+		vf_bound_done, vf_n_dup_preaction, vf_n_overread_checks, vf_n_expected_fatal, vf_n_op_effect);
 	for (i = 0; i < VF_NOPS; i++) fprintf(vf_out, "%s%ld", i ? "," : "", vf_n_ops[i]);
 	fprintf(vf_out, "]}\n");
 	fclose(vf_out);
